@@ -19,7 +19,7 @@ import random
 import warnings
 
 from .. import tlc
-from .c04 import CATS, P, kw, rec_expr, UNSET
+from .c04 import ALL_KWS, CATS, P, kw, rec_expr, UNSET
 
 INVS = ["InvLiveValid"]
 PROPS = ["FailedChangesNothing", "Independent", "UpdateExact", "EmptyUpdateNoop"]
@@ -34,11 +34,12 @@ def scheme_table():
     t["sha256_crypt"] = dict(base=H.sha256_crypt, P=P(1000, 999999999, H.sha256_crypt.default_rounds),
                              kws=[kw(minA=1500), kw(maxA=1500), kw(minA=1500, maxA=2500), kw(d=1800), kw(d=999), kw(minA=600000),
                                   kw(minA=3000, maxA=2500), kw(d=3000, maxA=2500), kw(varyK="int", varyV=100),
-                                  kw(varyK="pct", varyV=10, minA=1900), kw(varyK="pct", varyV=25)])
+                                  kw(varyK="pct", varyV=10, minA=1900), kw(varyK="pct", varyV=25), kw(varyK="pct", varyV=100), kw(varyK="int", varyV=1)])
     t["bcrypt"] = dict(base=H.bcrypt, P=P(4, 31, H.bcrypt.default_rounds, cost="log2"),
                        kws=[kw(minA=5), kw(maxA=5), kw(minA=5, maxA=6), kw(d=4), kw(d=3), kw(minA=13), kw(minA=7, maxA=5), kw(varyK="int", varyV=1)])
     t["md5_crypt"] = dict(base=H.md5_crypt, P=None, kws=[kw(minA=5)])
     t["des_crypt"] = dict(base=H.des_crypt, P=None, kws=[kw(d=5)])
+    t["postgres_md5"] = dict(base=H.postgres_md5, P=None, kws=[kw(minA=5)])        # takes a context keyword (user)
 
     try:
         faulty = registry.get_crypt_handler("faulty")
@@ -62,7 +63,8 @@ def scheme_table():
     t["faulty"] = dict(base=faulty, P=None, kws=[kw(minA=5)])
     for n, v in t.items():
         v["greedy"] = False
-        v["standing"] = v["base"].using(rounds=v["P"]["hmin"]).hash("pw") if v["P"] else v["base"].hash("pw")
+        ck = {"user": "user"} if "user" in v["base"].context_kwds else {}
+        v["standing"] = v["base"].using(rounds=v["P"]["hmin"]).hash("pw") if v["P"] else v["base"].hash("pw", **ck)
     return t
 
 
@@ -72,8 +74,8 @@ def consts_for(T, emit, **extra):
     norounds = rec_expr(P(0, 0, UNSET))
     facts = "[" + ", ".join(f'{n} |-> [hasRounds |-> {"TRUE" if T[n]["P"] else "FALSE"}, P |-> {rec_expr(T[n]["P"]) if T[n]["P"] else norounds}, '
                             f'greedy |-> FALSE]' for n in names) + "]"
-    kwc = "[" + ", ".join(f'{n} |-> {{{", ".join(rec_expr(k) for k in T[n]["kws"])}}}' for n in names) + "]"
-    c = dict(Facts=R(facts), Cats=set(CATS), KwChoices=R(kwc), MaxOps=10, DoEmit=emit, Faulty={"faulty"}, ExPatches=R("{NoPatch}"))
+    kwc = "[" + ", ".join([f'{n} |-> {{{", ".join(rec_expr(k) for k in T[n]["kws"])}}}' for n in names] + [f'all |-> {{{", ".join(rec_expr(k) for k in ALL_KWS)}}}']) + "]"
+    c = dict(Facts=R(facts), Cats=set(CATS), KwChoices=R(kwc), MaxOps=10, DoEmit=emit, Faulty={"faulty"}, CtxKwNames={n for n in names if T[n]["base"].context_kwds}, ExPatches=R("{NoPatch}"))
     c.update(extra)
     return c
 
@@ -99,10 +101,13 @@ def render(cfg, rnd=None, partial=False, has_schemes=True):
         for fld, name in (("minA", "min_rounds"), ("maxA", "max_rounds"), ("def", "default_rounds")):
             if k[fld] != UNSET:
                 d[f"{pre}{o['name']}__{name}"] = k[fld] if not rnd or rnd.random() < .7 else str(k[fld])
+        vkey = f"{pre}{o['name']}__vary_rounds"
+        if o["name"] == "all" and o["cat"] == "none" and rnd and rnd.random() < .6:
+            vkey = "vary_rounds"              # the bare global spelling (exported as all__vary_rounds)
         if k["varyK"] == "int":
-            d[f"{pre}{o['name']}__vary_rounds"] = k["varyV"] if not rnd or rnd.random() < .7 else str(k["varyV"])
+            d[vkey] = k["varyV"] if not rnd or rnd.random() < .7 else str(k["varyV"])
         elif k["varyK"] == "pct":
-            d[f"{pre}{o['name']}__vary_rounds"] = k["varyV"] * 0.01 if not rnd or rnd.random() < .5 else f"{k['varyV']}%"
+            d[vkey] = k["varyV"] * 0.01 if not rnd or rnd.random() < .5 else f"{k['varyV']}%"
     return d
 
 
@@ -123,8 +128,15 @@ def probe(ctx, T):
     """decisions of a real context in the shape of the spec's Probe()"""
     names = list(ctx.schemes())
     if not names:
-        return {"defaults": {}, "recs": {}, "ident": {}}
-    out = {"defaults": {}, "recs": {}, "ident": {s: (ctx.identify(T[s]["standing"]) or "unset") for s in T}}
+        return {"defaults": {}, "recs": {}, "ident": {}, "vkw": {}}
+    out = {"defaults": {}, "recs": {}, "ident": {s: (ctx.identify(T[s]["standing"]) or "unset") for s in T}, "vkw": {}}
+    for s in T:
+        try:
+            out["vkw"][s] = str(ctx.verify("pw", T[s]["standing"], user="user"))
+        except ValueError:
+            out["vkw"][s] = "ValueError"
+        except Exception as e:
+            out["vkw"][s] = type(e).__name__
     for c in CATS:
         rc = None if c == "none" else c
         out["defaults"][c] = ctx.default_scheme(category=rc)
@@ -143,8 +155,8 @@ def probe(ctx, T):
 
 def spec_probe(p, T):
     if not p["recs"]:
-        return {"defaults": {}, "recs": {}, "ident": {}}
-    out = {"defaults": dict(p["defaults"]), "recs": {}, "ident": dict(p["ident"])}
+        return {"defaults": {}, "recs": {}, "ident": {}, "vkw": {}}
+    out = {"defaults": dict(p["defaults"]), "recs": {}, "ident": dict(p["ident"]), "vkw": dict(p["vkw"])}
     for r in p["recs"]:
         q = r["p"]
         win = [q["minD"], q["maxD"], q["def"], q["varyK"], q["varyV"]] if T[r["name"]]["P"] else None
@@ -235,7 +247,7 @@ def run_behaviour(chk, T, beh, rnd):
                     which = "target" if j == i else "other"
                     state = "after-failure" if exp[0] == "error" else "after-success"
                     diff = {a: (hp["recs"].get(a), wp["recs"].get(a)) for a in set(hp["recs"]) | set(wp["recs"]) if hp["recs"].get(a) != wp["recs"].get(a)}
-                    bad = (f"{op}:{state}:{which}:decisions", f"context {j + 1} decides differently: defaults {hp['defaults']} vs {wp['defaults']}; identify {hp['ident']} vs {wp['ident']}; records {diff}")
+                    bad = (f"{op}:{state}:{which}:decisions", f"context {j + 1} decides differently: defaults {hp['defaults']} vs {wp['defaults']}; identify {hp['ident']} vs {wp['ident']}; verify(user=..) {hp['vkw']} vs {wp['vkw']}; records {diff}")
                     break
         if bad:
             chk.violation(bad[0], bad[1], {"history": hist, "step": k})
@@ -266,7 +278,7 @@ def run(chk):
            '[hasSchemes |-> FALSE, cfg |-> [NoCfg EXCEPT !.def = [c \\in Cats |-> IF c = "admin" THEN "des_crypt" ELSE "unset"]]], '
            '[hasSchemes |-> FALSE, cfg |-> [NoCfg EXCEPT !.def = [c \\in Cats |-> IF c = "none" THEN "bcrypt" ELSE "unset"]]], '
            '[hasSchemes |-> FALSE, cfg |-> [NoCfg EXCEPT !.depK = [c \\in Cats |-> IF c = "none" THEN "list" ELSE "unset"], !.depL = [c \\in Cats |-> IF c = "none" THEN {"md5_crypt"} ELSE {}]]], '
-           '[hasSchemes |-> TRUE, cfg |-> [NoCfg EXCEPT !.schemes = <<"sha256_crypt">>, !.opts = [k \\in Cats \\X AllNames |-> IF k = <<"admin", "sha256_crypt">> THEN [NoKw EXCEPT !.minA = 3000, !.maxA = 2500] ELSE NoKw]]]}')
+           '[hasSchemes |-> TRUE, cfg |-> [NoCfg EXCEPT !.schemes = <<"sha256_crypt">>, !.opts = [k \\in Cats \\X OptNames |-> IF k = <<"admin", "sha256_crypt">> THEN [NoKw EXCEPT !.minA = 3000, !.maxA = 2500] ELSE NoKw]]]}')
     r = tlc.run_instance("MC_ContextLife", consts_for(T, False, ExPatches=ex, MaxOps=4 if quick else 5), name="C10_mc", invariants=INVS, properties=PROPS,
                          action_constraint="Emit", view="View", coverage=False, timeout=900)
     chk.add_tlc("MC_ContextLife exhaustive over a fixed patch set", r)
